@@ -99,7 +99,7 @@ class C04(Property):
         from fractions import Fraction
         got = {}
         dflt = c04consts.DEFAULTS
-        rest_groups = set(groups) - {"engine", "sse"}
+        rest_groups = set(groups) - {"engine", "sse", "chain_order"}
         if rest_groups:
             ok, res = vlib.go_build("c04")
             if not ok:
@@ -171,6 +171,20 @@ class C04(Property):
                 reply += [["w", ch] for ch in (rp["writes"] or [])]
                 got["recover_reply"] = reply
                 got["recover_code"] = rp["status"] or 0
+        if "chain_order" in groups:
+            # a wrapped request whose handler sets a header and panics, Recover switched on: behind the timeout
+            # middleware the recovery goes through the timeout writer (the handler's header arrives with the
+            # reply); in front of it the buffered header is dropped with the re-raised panic
+            q = {"group": 0, "route": 0, "hdrs": [], "parent_ns": None, "fl": True, "h0": [], "deadline": False,
+                 "script": [["set", 1, 7], ["panic", 3]], "pshape": "plain"}
+            c = {"kind": "srv", "id": 0, "conf_ms": 60000, "mw_timeout": True, "mw_inner": False, "rec": True, "names": {},
+                 "groups": [{"opts": [["timeout", HOUR]], "n": 1}], "reqs": [q],
+                 "order": [["start", 0], ["H", 0], ["H", 0]], "procs": 0}
+            res = self._exec_kind("srv", [c])
+            if len(res) == 1 and not res[0].get("err"):
+                r0 = res[0]["reqs"][0]
+                if r0["wrapped"] and r0["sout"] == "ret" and r0["w"]["status"]:
+                    got["recover_inside"] = any(h["k"] == 1 for h in r0["w"]["snap"])
         if {"engine", "sse"} & set(groups):
             (an, av) = dflt["exempt"][1]
             q0 = {"group": 0, "route": 0, "hdrs": [], "parent_ns": None, "fl": True, "h0": [], "deadline": False,
@@ -1245,7 +1259,7 @@ class C04(Property):
             idx = next((i for i, kv in enumerate(known) if kv[0] == x["name"]), None)
             if x["name"] in rvals and x["vals"] == [rvals[x["name"]]]:
                 j = rnames.index(x["name"])       # a header the RecoverHandler's reply sets: key 800+j value 850+j
-                items.append([800 + j, [850 + j]])
+                items.append([c04consts.reply_key(self.consts, x["name"]), [850 + j]])
             elif idx is None or x["vals"] != [known[idx][1]]:
                 extra += 1
             else:
@@ -1369,6 +1383,9 @@ class C04(Property):
     def _reply(self):
         return self.consts.get("recover_reply") or [["wh", 500]]
 
+    def _recover_outside(self):
+        return not self.consts.get("recover_inside", True)
+
     def _ungated_recovery(self, o):
         """server cases: the engine's own RecoverHandler is not gated.  Right after a panic report of request i
         the whole reply (C04Consts.recover_reply_ops: header operations, WriteHeader, Writes) and the handler's
@@ -1384,6 +1401,10 @@ class C04(Property):
                 ob = o["hobs"][hp]
                 hp += 1
                 hobs.append(ob)
+                if len(ob) > 1 and ob[1] == "panic" and self._recover_outside() and o["reqs"][i]["wrapped"]:
+                    # Recover in front of the timeout middleware: the middleware re-raises (its panic branch),
+                    # the reply goes to the real writer in the serving goroutine — no handler event
+                    continue
                 if len(ob) > 1 and ob[1] == "panic":
                     for op in self._reply():
                         sched.append([i, "H"])
@@ -1393,6 +1414,10 @@ class C04(Property):
                             hobs.append([i, "none"])
                     sched.append([i, "H"])
                     hobs.append([i, "none"])
+        if self._recover_outside():
+            # ... and the executor saw ServeHTTP of the whole chain return normally: it was the panic branch
+            panicked = set(x[0] for x in hobs if len(x) > 1 and x[1] == "panic" and o["reqs"][x[0]]["wrapped"])
+            sched = [[i, "Sp"] if (e == "Sd" and i in panicked) else [i, e] for i, e in sched]
         o = dict(o)
         o["sched"], o["hobs"] = sched, hobs + o["hobs"][hp:]
         return o
@@ -1443,8 +1468,8 @@ class C04(Property):
         rs, sched, hobs = self._seq_reqs(c, o)
         groups = clist([clist(["(OptTimeout %s)" % cz(x[1]) if x[0] == "timeout" else "OptSSE" for x in g["opts"]])
                         for g in c["groups"]])
-        return "CSrv (mkSrv %s %s %s %s %s %s %s %s %s %s %s)" % (
-            cbool(c.get("rec", False)), cz(c["conf_ms"]), cbool(c["mw_timeout"]), groups, rs, sched, hobs, cz(o["ret_at_d"]),
+        return "CSrv (mkSrv %s %s %s %s %s %s %s %s %s %s %s %s)" % (
+            cbool(c.get("rec", False)), cbool(bool(c.get("rec")) and self._recover_outside()), cz(c["conf_ms"]), cbool(c["mw_timeout"]), groups, rs, sched, hobs, cz(o["ret_at_d"]),
             cz(o["read_ns"]), cz(o["write_ns"]), cz(o["eng_ns"]))
 
     def _coq_sseq(self, c, o):
@@ -1545,7 +1570,7 @@ class C04(Property):
         if sout is None:
             sout = "(SoPanic %s)" % self._pval(o["pkind"], o["pval"])
         fields = [
-            cbool(c.get("rec", False)), cbool(c.get("fl", False)),
+            cbool(c.get("rec", False)), "false", cbool(c.get("fl", False)),
             self._hdrs(c["h0"]), clist([self._act(a) for a in self._expand(c["script"], o["hobs"])]), cz(c["dur_ns"]), rq,
             self._optz(self._par(c)), copt(_kind(c["d"]["mode"])),
             cbool(o["wrapped"]), clist([self._ev(e) for e in o["sched"]]),
